@@ -6,4 +6,6 @@ mkdir -p .work evidence replays
 printf 'use vstd::prelude::*;\nverus!{ proof fn t() ensures true {} }\nfn main(){}\n' > .work/warm.rs
 (cd .work && verus warm.rs >/dev/null 2>&1 || true)
 rm -f .work/warm.rs
+# pre-build the witness-search tool (replay helper) against the current /repo; failure is not fatal
+(cd vx/witness && cp /repo/Cargo.lock . 2>/dev/null; CARGO_NET_OFFLINE=true CARGO_TARGET_DIR="$PWD/../../.build/witness" cargo build --offline -q >/dev/null 2>&1 || true)
 exit 0
